@@ -1616,16 +1616,11 @@ func UtxoValidateNativeScripts(
 	for _, bw := range witnesses.Bootstrap() {
 		keyHashes[common.Blake2b224Hash(bw.PublicKey)] = true
 	}
-	validityStart := tx.ValidityIntervalStart()
-	validityEnd := tx.TTL()
-	if validityEnd == 0 {
-		validityEnd = ^uint64(0)
-	}
+	validityStart, validityEnd := common.TxValidityInterval(tx)
 	guardCredentials := nativeScriptGuardCredentials(tx)
 	for _, nscript := range nativeScripts {
 		scriptHash := nscript.Hash()
-		if !nscript.EvaluateWithGuards(
-			slot,
+		if !nscript.EvaluateWithValidityAndGuards(
 			validityStart,
 			validityEnd,
 			keyHashes,
